@@ -24,7 +24,7 @@ import (
 // results, chain, live image and per-file contents that SOME sequential merge of the threads' calls produces.
 type C01Cfg struct {
 	Name    string   `json:"name"`
-	Init    string   `json:"init,omitempty"` // "" = open RW; "closed" = the same chain, replica closed
+	Init    string   `json:"init,omitempty"` // "" = open RW; "closed" = the same chain, replica closed; "wo" = open, mode WO
 	Threads []string `json:"threads"`        // one op per thread: W<b> Wu R<b> Ru Snap Rm Revert Reload ULM Resize ModeWO ModeRW Close Open SetRev
 }
 
@@ -116,6 +116,9 @@ func (x *c01Inst) calls(k int, op string) []func() string {
 				return "Rm.remove:ok"
 			},
 		}
+	case op == "RmRaw":
+		// the unlink step alone, as a REST removedisk request would issue it
+		return []func() string{func() string { return op + ":" + e(s.RemoveDiffDisk("volume-snap-a2.img")) }}
 	case op == "Revert":
 		return []func() string{func() string { return op + ":" + e(s.Revert("volume-snap-u3.img", "2020-01-01T00:00:00Z")) }}
 	case op == "Reload":
@@ -323,6 +326,9 @@ func c01Exec(cfg *C01Cfg, ch vs.Chooser, trace bool, order []int) (string, *vs.R
 		if cfg.Init == "closed" {
 			must("close", s.Close())
 		}
+		if cfg.Init == "wo" {
+			must("mode WO", s.SetReplicaMode("WO"))
+		}
 		calls := make([][]func() string, len(cfg.Threads))
 		results := make([][]string, len(cfg.Threads))
 		for k, op := range cfg.Threads {
@@ -506,6 +512,10 @@ func c01Configs(part, tier string) []C01Cfg {
 			out = append(out, C01Cfg{Name: part, Init: "closed", Threads: p})
 		}
 		out = append(out, C01Cfg{Name: part, Init: "closed", Threads: []string{"Open", "Open", "W0"}})
+		// a rebuilding (WO) replica: removals and SetRevisionCounter are refused, also in the middle of the rebuild epilogue
+		for _, p := range [][]string{{"RmRaw", "ULM"}, {"Rm", "ULM"}, {"RmRaw", "W0"}, {"SetRev", "W0"}, {"RmRaw", "R0"}, {"ModeRW", "RmRaw"}, {"ModeRW", "SetRev"}} {
+			out = append(out, C01Cfg{Name: part, Init: "wo", Threads: p})
+		}
 		for _, p := range [][]string{{"Close", "W0"}, {"Close", "Wu"}, {"Close", "Close"}, {"Close", "SetRev"}, {"ModeWO", "W0"}, {"ModeWO", "Rm"}, {"ModeWO", "SetRev"}, {"Close", "Open"}, {"Close", "Revert"}, {"Close", "ModeWO"}} {
 			add(p...)
 		}
